@@ -43,6 +43,9 @@ VALUES += [
     ("O(k:L(int))", {"k": [1]}),
     ("O(k:O(j:int))", {"k": {"j": 1}}),
     ("O(k:L(O(j:int)))", {"k": [{"j": 1}]}),
+    # unions that directly contain an object next to a scalar (same keys, different value kinds across samples)
+    ("L(O(k:int),int)", [{"k": 1}, 7]),
+    ("L(O(k:lit_a),int)", [{"k": "a"}, 7]),
 ]
 VALUE = dict(VALUES)
 VALUE_NAMES = [n for n, _ in VALUES]
@@ -115,8 +118,10 @@ PAYLOADS = {
     # payloads whose values need their own imports (List / Dict / Optional-free Any)
     "P3l": ("p",),
     "P4d": ("q",),
+    # a string value containing U+2028 (a line separator for str.splitlines, not for the tokenizer)
+    "P3u": ("p",),
 }
-PAYLOAD_VALUE = {"P1f": 1.5, "P3f": 1.5, "P3s": "s", "P3l": [1], "P4d": {"k1": 1}}
+PAYLOAD_VALUE = {"P1f": 1.5, "P3f": 1.5, "P3s": "s", "P3l": [1], "P4d": {"k1": 1}, "P3u": "a\u2028b"}
 EDGE_KEYS = ("c", "d")
 WRAPPERS = ("plain", "list", "nullable", "dict")
 
@@ -210,6 +215,10 @@ def graph_samples(spec):
 # --- key strings --------------------------------------------------------------------------------
 KEY_SYMBOLS_REALISTIC = ["a", "B", "1", "_", "-", " ", ".", "é", "я"]
 KEY_SYMBOLS_WILD = ['"', "'", "\\", "日"]
+import keyword as _kw
+KEYWORD_CASES = sorted({f(k) for k in _kw.kwlist for f in (str.lower, str.capitalize, str.upper)} |
+                       {f(k) for k in ("list", "dict", "type", "id", "object", "print", "any", "all", "str", "int", "float", "bool")
+                        for f in (str.lower, str.capitalize, str.upper)})
 KEY_WORDS = ["class", "list", "List", "Optional", "Any", "Dict", "Union", "Literal", "field", "Field", "BaseModel",
              "dataclass", "attr", "datetime", "date", "type", "id", "pk", "self", "None", "schema", "SQLModel",
              "IntString", "ClassType", "convert_strings", "optional", "Root"]
@@ -266,3 +275,19 @@ def sibling_graph_specs(sib_payloads=("P1", "P2"), sib_wrappers=("plain", "list"
                                     for cw2 in child_wrappers:
                                         yield [rp, [["c", w1, [s1, [["c", cw1, [c1, []]]]]],
                                                     ["d", w2, [s2, [["c", cw2, [c2, []]]]]]]]
+
+
+def varied_merge_samples(v0, v1, v2, rows_first=False):
+    """one root object with a `head` object and a list `rows` of objects of the same shape (they merge): the field f is
+    required with value v0 in head, and present with v1 / absent / present with v2 in the rows"""
+    def obj(v):
+        o = {"p": 1, "q": "x", "r": 2.5, "s": True}
+        if v is not ABSENT:
+            o["f"] = value(v)
+        return o
+    head = obj(v0)
+    rows = [obj(v1), obj(ABSENT), obj(v2)]
+    return [{"rows": rows, "head": head}] if rows_first else [{"head": head, "rows": rows}]
+
+
+VARIED_ATOMS = ["int", "float", "true", "lit_a", "s_int", "null", "L(int)", "elist", "O(k:int)"]
